@@ -314,6 +314,22 @@ class TagMachine:
             self.stats["lut_reads"] += 1
             lo, hi = F.lut_slot_interval(self.acc, li)
             self._const_read(D.SHRAM_REGION, lo, c["lut"]["size"], c["lut"]["flash"], opi, "LUT", c["name"])
+        if li is None and self.sh.has("shram"):
+            # parts without reserved table banks: the IFM buffers / accumulators of an operator that uses no table may extend
+            # over the table area and destroy what is stored there
+            banks = isa.ACCELERATORS[self.acc]["banks"]
+            if banks <= 16:
+                from ..ref import shram as _shram
+
+                try:
+                    end = _shram.usage_end_bank(self.acc, op.kind, op.sub, op.r, f.bits, op.r("IFM_DEPTH_M1") + 1, (o.height, o.width))
+                except Exception:
+                    end = banks
+                lo = (banks - 2) * isa.SHRAM_BANK_BYTES
+                hi = min(end, banks) * isa.SHRAM_BANK_BYTES
+                if hi > lo:
+                    self.sh.tid["shram"][lo:hi] = BOTTOM
+                    self.stats["lut_area_clobbered"] = self.stats.get("lut_area_clobbered", 0) + 1
         # ---- writes
         desc = c["ofm"]
         region = self._region(o.region)
